@@ -13,10 +13,11 @@ import engines.search as se
 
 warnings.filterwarnings('ignore')
 PROP = 'C10'
-LEAN_TARGETS = ['MM.Props.C10', 'MM.Driver.Wire', 'MM.Model.Api']
+LEAN_TARGETS = ['MM.Props.C10', 'MM.Driver.Wire', 'MM.Model.Api', 'MM.Props.MemoTie']
 THEOREMS = ['MM.Api.' + n for n in (
     'C10_init_inv', 'C10_step_inv', 'C10_params_unchanged', 'C10_call_history_free', 'C10_history_free',
     'C10_results_idempotent', 'C10_results_after_search')]
+THEOREMS = list(THEOREMS) + ['MM.Memo.tie_memoised']
 TRUSTED_BASE = [
     'Lean 4.33.0 kernel; axioms propext, Classical.choice, Quot.sound (audited per theorem)',
     'hand model MM/Model/Api.lean of the mutable state of one TBRMatchedMarkets object (caller parameters, data.geo_index, stored '
